@@ -25,6 +25,8 @@ CASES_QUICK = [
     # a topic that is in the map but has not been started (GetTopic asking the nsqlookupds, LoadMetadata): channels are
     # created, publishers find it -- and everything it accepted reaches every channel there is when it starts
     ("GETC", "GETD", "START", "unstarted"), ("PUT", "GETC", "START", "unstarted"),
+    # ... paused before it is started (LoadMetadata does that for a topic that was paused): it starts paused
+    ("PAUSE", "GETC", "START", "unstarted"),
 ]
 CASES_THOROUGH = CASES_QUICK + [
     ("PUT", "GETD", "DELC", "held"), ("PUT", "GETD", "DELC", "idle"), ("PUT", "GETD", "PAUSE", "held"),
@@ -35,7 +37,7 @@ CASES_THOROUGH = CASES_QUICK + [
     ("GETD", "DELC", "PUT", "idle"), ("PAUSE", "TDELETE", "NONE", "held"), ("UNPAUSE", "TEXIT", "PUT", "paused"),
     ("DELC", "GETC", "PUT", "backlog"), ("DELC", "GETC", "GETC", "backlog"), ("DELC", "GETC", "TEXIT", "backlog"),
     ("PUT", "GETC", "NONE", "nochan"),
-    ("PUT", "GETD", "START", "unstarted"), ("PAUSE", "GETC", "START", "unstarted"),
+    ("PUT", "GETD", "START", "unstarted"),
 ]
 
 VEC = ["m1c", "m2c", "m1d", "m2d", "m1tq", "m2tq", "m2acked", "m2failed", "c_in_map", "d_in_map", "paused", "mcount",
@@ -281,7 +283,7 @@ def judge(ctx, prop, obs):
                             if "m2" in bodies:
                                 bad.append(("paused-handed", "m2 was published after the topic's pause had been acknowledged and "
                                             "channel %s delivered it while the topic was still paused" % x))
-                    if sit == "paused" and "UNPAUSE" not in ops:
+                    if (sit == "paused" and "UNPAUSE" not in ops) or (sit == "unstarted" and o.get("paused_at_start") and "UNPAUSE" not in ops):
                         for x, bodies in pp.items():
                             if "m1" in bodies:
                                 bad.append(("paused-handed", "m1 was published to a paused topic and channel %s delivered it "
